@@ -10,6 +10,7 @@ use crate::spec::Kind;
 
 fn check(ctx: &Ctx, m: &ModelGame, label: &str, counting: bool) -> Result<(), Fail> {
 	let bytes = m.encode();
+	super::sibling_history(m, &bytes);
 	if counting {
 		ctx.eval();
 		ctx.class(regime(m));
